@@ -72,6 +72,7 @@ fn main() {
         "dispatch-listeners" => dispatch::run_listeners(&args),
         "dispatch-huge-child" => dispatch::huge_child(&args.rest[0]),
         "dispatch-nested-child" => dispatch::nested_child(&args.rest[0]),
+        "dispatch-hugeframe-child" => dispatch::hugeframe_child(&args.rest[0]),
         "startok" => startok::run(&args),
         "api" => api::run(&args),
         "publish" => publish::run(&args),
